@@ -685,7 +685,9 @@ func c30Check(hist []c30Ev, e *Env) (Outcome, bool) {
 					return violation("returned-after-clear", "%s returned %s although Clear had completed after that write (stamps %d..%d)", at, r.Got, cl.Call, cl.Ret), true
 				}
 			}
-			if d := r.T0.Sub(w.TTL); d > c30Window {
+			// no tolerance on the late side: the store keeps whole seconds, which can only make an entry
+			// expire early (the window below), never late; a read issued after the TTL instant gets nothing
+			if d := r.T0.Sub(w.TTL); d > 0 {
 				return violation("returned-after-expiry", "%s returned %s %v after its expiry", at, r.Got, d), true
 			}
 			continue
